@@ -85,6 +85,19 @@ func c04Run(s *c04Scn, segName string) verdict {
 	}
 
 	cli := &simdev.CLI{Prompts: prompts, Mode: mode(s.Start), Banner: "hello\r\n"}
+
+	var pipe *simdev.Pipe
+
+	stallNext := false
+	transitioned := func() {
+		// "configs-stalled": the device acts on the transition, its answer never arrives
+		if stallNext {
+			stallNext = false
+
+			pipe.StallFromHere()
+		}
+	}
+
 	cli.Handler = func(c *simdev.CLI, line string) string {
 		var cur int
 
@@ -109,11 +122,15 @@ func c04Run(s *c04Scn, segName string) verdict {
 
 			c.Mode = mode(x)
 
+			transitioned()
+
 			return ""
 		}
 
 		if n, _ := fmt.Sscanf(line, "leave %d", &x); n == 1 && x == cur && s.Parent[cur-1] != 0 {
 			c.Mode = mode(s.Parent[cur-1])
+
+			transitioned()
 
 			return ""
 		}
@@ -125,7 +142,7 @@ func c04Run(s *c04Scn, segName string) verdict {
 		return "% Invalid input detected"
 	}
 
-	pipe := simdev.NewPipe(cli, int64(s.ID))
+	pipe = simdev.NewPipe(cli, int64(s.ID))
 	pipe.Seg = faultSegs[segName]
 
 	d, err := network.NewDriver("sim",
@@ -159,6 +176,37 @@ func c04Run(s *c04Scn, segName string) verdict {
 			lines = []string{fmt.Sprintf("set a%d", j), fmt.Sprintf("set b%d", j)}
 		case "configs-leave":
 			lines = []string{fmt.Sprintf("set a%d", j), fmt.Sprintf("leave %d", op.Target)}
+		case "configs-stalled":
+			lines = []string{fmt.Sprintf("set a%d", j), fmt.Sprintf("set b%d", j)}
+
+			pipe.Lock()
+			stallNext = true
+			pipe.Unlock()
+
+			d.Channel.TimeoutOps = 250 * time.Millisecond
+		case "rename":
+			// the host is renamed: every prompt changes its first letter; the level patterns are edited in place
+			letter := byte('q')
+			if strings.HasPrefix(cli.Prompts[mode(1)], "q") {
+				letter = 'p'
+			}
+
+			pipe.Lock()
+			for i := 1; i <= s.N; i++ {
+				cli.Prompts[mode(i)] = string(letter) + cli.Prompts[mode(i)][1:]
+			}
+			pipe.Unlock()
+
+			for i := 1; i <= s.N; i++ {
+				shown := i
+				if len(s.Twin) == 2 && s.Twin[1] == i {
+					shown = s.Twin[0]
+				}
+
+				d.PrivilegeLevels[c04Name(s, i)].Pattern = fmt.Sprintf(`(?im)^%c%d[>#]\s?$`, letter, shown)
+			}
+
+			d.UpdatePrivileges()
 		}
 
 		var opErr error
@@ -173,7 +221,7 @@ func c04Run(s *c04Scn, segName string) verdict {
 				_, opErr = d.SendCommand(lines[0])
 			case "interactive":
 				_, opErr = d.SendInteractive([]*channel.SendInteractiveEvent{{ChannelInput: lines[0], ChannelResponse: "", HideInput: false}})
-			case "configs", "configs-leave":
+			case "configs", "configs-leave", "configs-stalled":
 				_, opErr = d.SendConfigs(lines)
 			case "config":
 				_, opErr = d.SendConfig(strings.Join(lines, "\n"))
@@ -181,6 +229,15 @@ func c04Run(s *c04Scn, segName string) verdict {
 				_, opErr = d.SendConfigs(lines, opoptions.WithPrivilegeLevel(c04Name(s, op.Target)))
 			}
 		})
+
+		if op.Op == "configs-stalled" {
+			// the device catches up; what it had withheld is delivered
+			pipe.SetStall(-1)
+			pipe.WaitDrained(time.Second)
+			time.Sleep(2 * time.Millisecond)
+
+			d.Channel.TimeoutOps = 3 * time.Second
+		}
 
 		sig := fmt.Sprintf("C04:%s", op.Op)
 
